@@ -398,3 +398,225 @@ def readStream : Nat → Bytes → List Bytes × SEnd
     | (.err, _) => ([], .err)
 
 end Cell2v.Codec
+
+namespace Cell2v.Codec
+
+/-! ## `Encode` as the Go METHOD: it also modifies the message it is handed
+
+`MessagesEncoder.Encode` (message_encoder.go): with `DataCompression` on and a deflated body that is
+shorter, `message.Data = d` — the caller's object now carries the DEFLATED bytes.  `encodeMsgM` returns
+the bytes and the message as it is after the call (`encodeMsg` is its first component). -/
+
+def encodeMsgM (E : Env) (m : Msg) : Bytes × Msg :=
+  let d := E.deflate m.data
+  let gz := E.compress && decide (d.length < m.data.length)
+  (encodeMsg E m, { m with data := if gz then d else m.data })
+
+/-! ## the whole path: messages → `Encode` → Data packets → byte stream → frames → packets → `Decode` -/
+
+/-- what the sender puts on the wire for a list of messages: one Data packet (type 4) per message -/
+def sendMsgs (E : Env) (ms : List Msg) : List Packet := ms.map fun m => ⟨4, encodeMsg E m⟩
+
+/-- what the receiver makes of one frame handed over by `GetNextMessage`: packet decoder, then
+`message.Decode` of every packet body -/
+def recvFrame (E : Env) (fr : Bytes) : Except PErr (List (Out Msg)) :=
+  match decodePackets fr with
+  | .error e => .error e
+  | .ok ps => .ok (ps.map fun p => decodeMsg E p.body)
+
+/-! ## the packet decoder's second caller: `Client.readPackets` (pomelonet/client/client.go)
+
+One long-lived `bytes.Buffer` accumulates what the socket delivers; each round hands the whole buffer to
+`PomeloPacketDecoder.Decode`, drops `Σ (HeadLength + p.Length)` bytes and keeps the rest for the next
+round; a decode error is logged, nothing is dropped and no packet is returned. -/
+
+def packetsLen (ps : List Packet) : Nat := (ps.map fun p => 4 + p.body.length).sum
+
+/-- one `readPackets` round on buffer `buf` when the socket delivers `frag` (a read shorter than the
+1024-byte scratch): the buffer afterwards and the packets returned -/
+def clientRead (buf frag : Bytes) : Bytes × List Packet :=
+  let b := buf ++ frag
+  match decodePackets b with
+  | .ok ps => (b.drop (packetsLen ps), ps)
+  | .error _ => (b, [])
+
+/-- the `readServerMessages` loop: everything pushed to `packetChan`, in order -/
+def clientReadLoop : Bytes → List Bytes → List Packet
+  | _, [] => []
+  | buf, f :: fs => (clientRead buf f).2 ++ clientReadLoop (clientRead buf f).1 fs
+
+/-- `cut=a,b,c` of the harness (positions strictly inside the stream, ascending): the fragments -/
+def cutAt : Bytes → Nat → List Nat → List Bytes
+  | b, _, [] => [b]
+  | b, last, p :: ps =>
+    if last < p ∧ p - last < b.length then b.take (p - last) :: cutAt (b.drop (p - last)) p ps
+    else cutAt b last ps
+
+end Cell2v.Codec
+
+namespace Cell2v.Codec
+
+/-! ## the session's read loop as a state machine (`ClientSession.read` + `processPacket`, session.go)
+
+Everything that runs on the recover-less reader goroutine for client-controlled bytes: per frame handed over by
+`GetNextMessage` the packet decoder, then `processPacket` for every packet of the frame.  `jsonOk` is
+`json.Unmarshal(body, &HandshakeData{}) == nil` (encoding/json is not modelled; the harness supplies the
+accepted bodies).  Status values as in session.go: Start < Handshake < Working < Closed. -/
+
+inductive SStatus | start | handshake | working | closed
+  deriving DecidableEq, Repr
+
+def SStatus.code : SStatus → Nat
+  | .start => 1 | .handshake => 2 | .working => 3 | .closed => 4
+
+/-- result of `processPacket`: go on (new status, what the owner was handed) | error return (the read loop
+returns and the deferred `Close` runs) | a checked access failed (= Go panic) -/
+inductive PRes
+  | cont (st : SStatus) (ev : List SessOut)
+  | stop
+  | crash
+  deriving DecidableEq, Repr
+
+def processPacket (E : Env) (jsonOk : Bytes → Bool) (st : SStatus) (p : Packet) : PRes :=
+  if p.typ = 1 then                                  -- Handshake: response written, body must be JSON
+    if jsonOk p.body then .cont .handshake [] else .stop
+  else if p.typ = 2 then .cont .working []            -- HandshakeAck: Working, whatever the status was
+  else if p.typ = 4 then                              -- Data
+    if st.code < 3 then .cont st []                   -- not yet acknowledged: silently ignored
+    else match decodeMsg E p.body with
+      | .ok m => .cont st [.delivered (m.id % 2 ^ 32) m.route m.data]
+      | .err _ => .stop
+      | .oob => .crash
+  else .cont st []                                    -- Heartbeat, Kick: nothing the owner sees
+
+/-- the `for i := range packets` loop of one frame: events so far and how it ended -/
+def processPackets (E : Env) (jsonOk : Bytes → Bool) : SStatus → List Packet → List SessOut × Option SStatus × Bool
+  | st, [] => ([], some st, false)
+  | st, p :: ps =>
+    match processPacket E jsonOk st p with
+    | .cont st' ev => let r := processPackets E jsonOk st' ps; (ev ++ r.1, r.2.1, r.2.2)
+    | .stop => ([], none, false)
+    | .crash => ([], none, true)
+
+/-- the read loop over the frames the connection hands over; the list ends with `.closed` when the session
+closed itself, with `.crash` when the reader goroutine panicked, with neither when the frames ran out -/
+def sessFrames (E : Env) (jsonOk : Bytes → Bool) : SStatus → List Bytes → List SessOut
+  | _, [] => []
+  | st, f :: fs =>
+    match decodePackets f with
+    | .error _ => [.closed]
+    | .ok ps =>
+      match processPackets E jsonOk st ps with
+      | (ev, some st', _) => ev ++ sessFrames E jsonOk st' fs
+      | (ev, none, false) => ev ++ [.closed]
+      | (ev, none, true) => ev ++ [.crash]
+
+end Cell2v.Codec
+
+namespace Cell2v.Codec
+
+/-! ## `ParseHeader` with checked accesses (utils.go)
+
+```go
+if len(header) != HeadLength { return 0, 0x00, packet.ErrInvalidPomeloHeader }
+typ := header[0]
+if typ < packet.Handshake || typ > packet.Kick { return 0, 0x00, packet.ErrWrongPomeloPacketType }
+size := BytesToInt(header[1:])
+if size > MaxPacketSize { return 0, 0x00, ErrPacketSizeExcced }
+```
+`none` = an index/slice expression out of range = Go panic. -/
+
+/-- `BytesToInt`: big-endian fold -/
+def bytesToInt (b : Bytes) : Nat := b.foldl (fun acc x => acc * 256 + x) 0
+
+def parseHeaderC (h : Bytes) : Option (Except PErr (Nat × Nat)) :=
+  if h.length ≠ 4 then some (.error .invalidHeader) else
+  match idx? h 0 with
+  | none => none
+  | some t =>
+    if t < 1 ∨ t > 5 then some (.error .wrongType) else
+    match slice? h 1 h.length with
+    | none => none
+    | some tl =>
+      let size := bytesToInt tl
+      if size > maxPacketSize then some (.error .exceed) else some (.ok (size, t))
+
+end Cell2v.Codec
+
+namespace Cell2v.Codec
+
+/-! ## memory model for what `PomeloPacketDecoder.Decode` returns
+
+A returned `packet.Packet` carries `Data []byte`: a SLICE — (buffer, offset, length) — not a value.  The heap is a
+list of buffers, each tagged by who can reach it for writing: buffers of the caller (read buffers, which are recycled)
+and buffers private to a `Decode` call (`buf := bytes.NewBuffer(nil); buf.Write(data)`: a fresh copy per call;
+`buf.Next(size)` returns slices of it).  `decodeRefs` is the Go loop with the buffer's read offset explicit. -/
+
+inductive Owner | caller | decoder
+  deriving DecidableEq, Repr
+
+structure Buf where
+  owner : Owner
+  bytes : Bytes
+  deriving DecidableEq, Repr
+
+abbrev Heap := List Buf
+
+/-- `packet.Packet{Type: typ, Length: len, Data: heap[buf][off : off+len]}` -/
+structure PRef where
+  typ : Nat
+  buf : Nat
+  off : Nat
+  len : Nat
+  deriving DecidableEq, Repr
+
+/-- the packet a reference reads as when its buffer holds `data` -/
+def PRef.on (r : PRef) (data : Bytes) : Packet := ⟨r.typ, (data.drop r.off).take r.len⟩
+
+/-- what a kept `*packet.Packet` reads as NOW -/
+def Heap.deref (h : Heap) (r : PRef) : Option Packet := (h[r.buf]?).map fun b => r.on b.bytes
+
+def decRefLoop (id size typ : Nat) (data : Bytes) (off : Nat) : Except PErr (List PRef) :=
+  if size ≤ data.length - off then
+    if data.length - (off + size) < 4 then .ok [⟨typ, id, off, size⟩]
+    else
+      match parseHeader ((data.drop (off + size)).take 4) with
+      | .error e => .error e
+      | .ok (s', t') =>
+        match decRefLoop id s' t' data (off + size + 4) with
+        | .error e => .error e
+        | .ok rs => .ok (⟨typ, id, off, size⟩ :: rs)
+  else .ok []
+termination_by data.length - off
+decreasing_by omega
+
+/-- the slices `Decode` returns when its private buffer has id `id` and holds `data` -/
+def decodeRefs (id : Nat) (data : Bytes) : Except PErr (List PRef) :=
+  if data.length < 4 then .ok []
+  else
+    match parseHeader (data.take 4) with
+    | .error e => .error e
+    | .ok (s, t) => decRefLoop id s t data 4
+
+/-- `Decode(heap[inp])`: a fresh decoder-private copy is allocated, the result points into it -/
+def decodeH (h : Heap) (inp : Nat) : Heap × Except PErr (List PRef) :=
+  match h[inp]? with
+  | none => (h, .ok [])
+  | some b => (h ++ [⟨.decoder, b.bytes⟩], decodeRefs h.length b.bytes)
+
+/-- what can happen to the heap afterwards: the caller overwrites (recycles) one of ITS buffers with anything,
+allocates a new one, or calls `Decode` again on any buffer -/
+inductive HOp
+  | write (id : Nat) (bytes : Bytes)
+  | alloc (bytes : Bytes)
+  | decode (inp : Nat)
+
+def Heap.step (h : Heap) : HOp → Heap
+  | .write id bs =>
+    match h[id]? with
+    | some ⟨.caller, _⟩ => h.set id ⟨.caller, bs⟩
+    | _ => h
+  | .alloc bs => h ++ [⟨.caller, bs⟩]
+  | .decode inp => (decodeH h inp).1
+
+end Cell2v.Codec
